@@ -39,6 +39,9 @@ pub struct TokenParser {
 
     // tokens currently in KV cache
     llm_tokens: Vec<TokenId>,
+    // indices in llm_tokens of EOS tokens accepted as end-of-sequence (they contribute no bytes);
+    // an EOS token consumed by the grammar (e.g. `"a" <|end|> "b"`) contributes bytes like any other token
+    zero_byte_eos: Vec<usize>,
     llm_bytes: Vec<u8>,
 
     grm_prefix: Vec<u8>,
@@ -114,6 +117,7 @@ impl TokenParser {
             dbg_grammar: String::new(),
             eos_tokens,
             llm_tokens: Vec::new(),
+            zero_byte_eos: Vec::new(),
             llm_bytes: Vec::new(),
             grm_prefix: Vec::new(),
             max_tokens_total: max_tokens,
@@ -402,9 +406,9 @@ impl TokenParser {
 
         let new_len = self.llm_tokens.len() - n_tokens;
         let mut bytes_to_drop = 0;
-        for tok in &self.llm_tokens[new_len..] {
-            if self.eos_tokens.contains(tok) {
-                // doesn't count; we hope it's last though...
+        for (idx, tok) in self.llm_tokens.iter().enumerate().skip(new_len) {
+            if self.zero_byte_eos.contains(&idx) {
+                // EOS accepted as end-of-sequence: doesn't count
                 bytes_to_drop += 0;
             } else {
                 bytes_to_drop += self.tok_trie().token_len(*tok);
@@ -421,6 +425,7 @@ impl TokenParser {
 
         self.max_tokens_total = self.max_tokens_total.saturating_add(n_tokens);
         self.llm_tokens.truncate(new_len);
+        self.zero_byte_eos.retain(|&idx| idx < new_len);
         self.llm_bytes
             .truncate(self.llm_bytes.len() - bytes_to_drop);
         self.clear_caches();
@@ -639,6 +644,7 @@ impl TokenParser {
                         self.parser.additional_backtrack(additional_backtrack_bytes);
                     }
                     self.llm_tokens.truncate(token_ptr);
+                    self.zero_byte_eos.retain(|&idx| idx < token_ptr);
                     return Ok(backtrack_tokens);
                 }
             }
@@ -836,6 +842,7 @@ impl TokenParser {
                     accepting
                 );
                 if accepting {
+                    self.zero_byte_eos.push(self.llm_tokens.len());
                     self.llm_tokens.push(token);
                     return Ok(0);
                 }
